@@ -63,6 +63,18 @@ def _is_attribute_key(key_node: yaml.Node, attribute: str) -> bool:
             and key_node.value == attribute)
 
 
+def _respelled(key_node: yaml.ScalarNode, new_text: str) -> yaml.ScalarNode:
+    """Returns a key like the given one, but with another text.
+
+    The key node itself may be referred to from elsewhere too (it may
+    have been an attribute value before one of the conversion functions
+    made it a key), so it is left alone.
+    """
+    return yaml.ScalarNode(
+            key_node.tag, new_text, key_node.start_mark, key_node.end_mark,
+            key_node.style)
+
+
 class Node:
     """A wrapper class for yaml Nodes that provides utility functions.
 
@@ -477,9 +489,10 @@ class Node:
             attribute: The (old) name of the attribute to rename.
             new_name: The new name to rename it to.
         """
-        for key_node, _ in self.yaml_node.value:
+        for i, (key_node, value_node) in enumerate(self.yaml_node.value):
             if _is_attribute_key(key_node, attribute):
-                key_node.value = new_name
+                self.yaml_node.value[i] = (
+                        _respelled(key_node, new_name), value_node)
                 break
 
     def unders_to_dashes_in_keys(self) -> None:
@@ -492,9 +505,11 @@ class Node:
         """
         if not isinstance(self.yaml_node, yaml.MappingNode):
             return
-        for key_node, _ in self.yaml_node.value:
-            if isinstance(key_node, yaml.ScalarNode):
-                key_node.value = key_node.value.replace('_', '-')
+        for i, (key_node, value_node) in enumerate(self.yaml_node.value):
+            if isinstance(key_node, yaml.ScalarNode) and '_' in key_node.value:
+                self.yaml_node.value[i] = (
+                        _respelled(key_node, key_node.value.replace('_', '-')),
+                        value_node)
 
     def dashes_to_unders_in_keys(self) -> None:
         """Replaces dashes with underscores in key names.
@@ -506,9 +521,11 @@ class Node:
         """
         if not isinstance(self.yaml_node, yaml.MappingNode):
             return
-        for key_node, _ in self.yaml_node.value:
-            if isinstance(key_node, yaml.ScalarNode):
-                key_node.value = key_node.value.replace('-', '_')
+        for i, (key_node, value_node) in enumerate(self.yaml_node.value):
+            if isinstance(key_node, yaml.ScalarNode) and '-' in key_node.value:
+                self.yaml_node.value[i] = (
+                        _respelled(key_node, key_node.value.replace('-', '_')),
+                        value_node)
 
     def seq_attribute_to_map(self,
                              attribute: str,
